@@ -305,8 +305,14 @@ static void dimg_make(dimg *d, pixman_format_code_t code, int bpp, const pixman_
         pixman_region32_fini(&r);
     }
 }
-static void dimg_wrap(dimg *d, int wrap)      /* 1: accessors, 2: alpha map */
+static void dimg_wrap(dimg *d, int wrap, int used_before)      /* 1: accessors, 2: alpha map; used_before: the image has already been a (plain) destination */
 {
+    if (used_before) {
+        /* a request that validates the destination and writes nothing: what the library derived from the plain image must not be trusted later */
+        uint32_t one = 0; pixman_image_t *scratch = pixman_image_create_bits(PIXMAN_a8r8g8b8, 1, 1, &one, 4);
+        pixman_image_composite32(PIXMAN_OP_DST, scratch, NULL, d->im, 0, 0, 0, 0, 0, 0, 1, 1);
+        pixman_image_unref(scratch);
+    }
     if (wrap == 1) { d->acc = 1; pixman_image_set_accessors(d->im, acc_read, acc_write); }
     if (wrap == 2) {
         d->amap_buf = aligned_buf(AM_SIZE);
@@ -516,7 +522,7 @@ static void wrapped_case(uint64_t idx, void *vctx)
     dest_info(di, &code, &fname, &bpp, &dmask, &is_float);
     dimg lib, ora;
     dimg_make(&lib, code, bpp, NULL, clip); dimg_make(&ora, code, bpp, NULL, clip);
-    dimg_wrap(&lib, wrap); dimg_wrap(&ora, wrap);
+    dimg_wrap(&lib, wrap, (int)(idx & 1)); dimg_wrap(&ora, wrap, (int)(idx & 1));      /* odd cases: the destinations were used as plain images first */
     uint8_t *init = malloc(lib.size); fill_initial(init, lib.size, lib.stride, bpp, is_float);
     uint64_t acc = 0, o = 0; int nchanged = 0;
     if (vf_verbose) printf("  destination %s\n", wrap == 1 ? "with scrambling read/write accessors" : "with an a8 alpha map");
